@@ -388,4 +388,4 @@ MANIFEST = {
     'design_ref': 'DESIGN.md 3/C16',
 }
 MANIFEST['note'] += (' Also decided here (necessary conditions shared between properties or added after the independent '
-                     'change rounds, DESIGN.md 8.7): timer coverage of request-outstanding states (from C09), parse errors leave process_message, from_exception cannot raise.')
+                     'change rounds, DESIGN.md 8.7): timer coverage of request-outstanding states (from C09), parse errors leave process_message, from_exception cannot raise. Rounds 7-8: lookup helpers may report a miss by StopIteration or None; the successor is never reset while the IKE_SA has one; tracked before installed.')
